@@ -19,9 +19,11 @@
 (*   feature     [tag, lk]      lk = sequence of 0-based lookup indices    *)
 (*   lookup      [ty, rules]    rules in priority order (first match wins, *)
 (*               i.e. subtables / ligature sets flattened in their order)  *)
-(*       ty = 1  GSUB single       rule <<from, to>>                       *)
-(*       ty = 4  GSUB ligature     rule <<out, first, second, ...>>        *)
-(*       ty = 2  GPOS pair         rule <<left, right, dAdv1, dPlace1,     *)
+(*       GSUB 1  single            rule <<from, to>>                       *)
+(*       GSUB 2  multiple          rule <<from, to1, to2, ...>>            *)
+(*       GSUB 4  ligature          rule <<out, first, second, ...>>        *)
+(*       GPOS 1  single adjustment rule <<glyph, dAdv, dPlace>>            *)
+(*       GPOS 2  pair              rule <<left, right, dAdv1, dPlace1,     *)
 (*                                        two, dAdv2>>  (two = 1: a value  *)
 (*                                        record for the second glyph)     *)
 (*   table       [present, sl, fl, ll]                                     *)
@@ -122,13 +124,35 @@ ScanPair(rules, seq, p) ==
                       THEN ScanPair(rules, [s1 EXCEPT ![p + 1].a = @ + r[6]], p + 2)
                       ELSE ScanPair(rules, s1, p + 1)
 
-ApplyLookup(lk, seq) ==
-  CASE lk.ty = 1 -> ApplySingle(lk.rules, seq)
-    [] lk.ty = 4 -> ScanLig(lk.rules, seq, 1)
-    [] lk.ty = 2 -> ScanPair(lk.rules, seq, 1)
+\* multiple substitution: the first replacement glyph keeps the text, the inserted glyphs
+\* carry none (DESIGN.md appendix A); the scan continues after the inserted glyphs
+RECURSIVE ScanMulti(_, _, _)
+ScanMulti(rules, seq, p) ==
+  IF p > Len(seq) THEN seq
+  ELSE LET k == FirstRule(rules, LAMBDA r : r[1] = seq[p].g /\ Len(r) >= 2)
+       IN  IF k = 0 THEN ScanMulti(rules, seq, p + 1)
+           ELSE LET r   == rules[k]
+                    n   == Len(r) - 1
+                    new == [j \in 1..n |-> IF j = 1 THEN [seq[p] EXCEPT !.g = r[2]] ELSE Item(r[j + 1], <<>>)]
+                IN  ScanMulti(rules, SubSeq(seq, 1, p - 1) \o new \o SubSeq(seq, p + 1, Len(seq)), p + n)
+
+\* single adjustment: every covered glyph, whatever the length of the sequence
+ApplyAdjust(rules, seq) ==
+  [i \in 1..Len(seq) |->
+     LET k == FirstRule(rules, LAMBDA r : r[1] = seq[i].g)
+     IN  IF k = 0 THEN seq[i] ELSE [seq[i] EXCEPT !.a = @ + rules[k][2], !.x = @ + rules[k][3]]]
+
+\* lookup types are numbered per table: GSUB 1 single, 2 multiple, 4 ligature; GPOS 1 single
+\* adjustment, 2 pair adjustment
+ApplyLookup(kind, lk, seq) ==
+  CASE kind = "GSUB" /\ lk.ty = 1 -> ApplySingle(lk.rules, seq)
+    [] kind = "GSUB" /\ lk.ty = 2 -> ScanMulti(lk.rules, seq, 1)
+    [] kind = "GSUB" /\ lk.ty = 4 -> ScanLig(lk.rules, seq, 1)
+    [] kind = "GPOS" /\ lk.ty = 1 -> ApplyAdjust(lk.rules, seq)
+    [] kind = "GPOS" /\ lk.ty = 2 -> ScanPair(lk.rules, seq, 1)
 
 \* the selected lookups, in lookup-list order
-ApplyLookups(ll, idxs, seq) == FoldLeft(LAMBDA s, i : ApplyLookup(ll[i + 1], s), seq, idxs)
+ApplyLookups(kind, ll, idxs, seq) == FoldLeft(LAMBDA s, i : ApplyLookup(kind, ll[i + 1], s), seq, idxs)
 
 \* every glyph that is not a mark (GDEF glyph class 3) gets the font's advance width
 SetAdvances(widths, marks, seq) ==
@@ -210,9 +234,9 @@ EffGpos(F, rd) ==
 ---------------------------------------------------------------------------
 (* The pipeline.  gl, pl: the selected GSUB / GPOS lookup indices.         *)
 StageCmap(F, s)        == MapString(BestCmap(F), s)
-StageGsub(G, gl, seq)  == IF G.present THEN ApplyLookups(G.ll, gl, seq) ELSE seq
+StageGsub(G, gl, seq)  == IF G.present THEN ApplyLookups("GSUB", G.ll, gl, seq) ELSE seq
 StageWidths(F, seq)    == SetAdvances(F.widths, ToSet(F.marks), seq)
-StageGpos(P, pl, seq)  == IF P.present THEN ApplyLookups(P.ll, pl, seq) ELSE seq
+StageGpos(P, pl, seq)  == IF P.present THEN ApplyLookups("GPOS", P.ll, pl, seq) ELSE seq
 
 LayoutWith(F, G, P, gl, pl, s) ==
   StageGpos(P, pl, StageWidths(F, StageGsub(G, gl, StageCmap(F, s))))
